@@ -1,32 +1,107 @@
 /-
-  END-TO-END statement about the TRANSLATED SOURCE of cvss2.py (`Cvss.Gen.Code2`, regenerated from the source
-  text on every run): the source tie `CodeTie2.init_tail_eq` (model = translated source) composed with
-  `C03.v2_scores_eq_spec` (model = the guide's equations).  It says what the code's own text computes for every
-  valid metric dict; only the parser, which produces that dict, is tied by correspondence alone.
+  END-TO-END statements about the TRANSLATED SOURCE of cvss2.py (`Cvss.Gen.Code2`, regenerated from the
+  source text on every run): the source tie (`CodeTie2.construct_eq`, `init_tail_eq`: model = translated
+  source) composed with the property theorems about the model (`C03.v2_scores_eq_spec`: model = guide's
+  equations; `C04.v2_construct_accepts_iff` etc.: model = grammar).  They say what the code's own text
+  does, for every string / every valid metric dict.
 -/
 import Cvss.Props.CodeTie2
 import Cvss.Props.C03
+import Cvss.Props.C04Final
 namespace Cvss.Props.CodeTie2
-open Cvss Cvss.Gen Cvss.Model
+open Cvss Cvss.Gen Cvss.Model Cvss.Spec.Grammar
+
+namespace Aux
+/-- reading an outcome equation between a translated computation and a model computation -/
+theorem ok_of_ok {α β γ : Type} {x : Py.M α} {y : Except Err β} {f : α → γ} {g : β → γ}
+    (h : (x.mapError Py.Exc.toErr).map f = y.map g) {a : α} (hx : x = .ok a) : ∃ b, y = .ok b ∧ f a = g b := by
+  subst hx
+  cases y with
+  | error e => simp [Except.mapError, Except.map] at h
+  | ok b => exact ⟨b, rfl, by simpa [Except.mapError, Except.map] using h⟩
+
+theorem ok_of_ok' {α β γ : Type} {x : Py.M α} {y : Except Err β} {f : α → γ} {g : β → γ}
+    (h : (x.mapError Py.Exc.toErr).map f = y.map g) {b : β} (hy : y = .ok b) : ∃ a, x = .ok a ∧ f a = g b := by
+  subst hy
+  cases x with
+  | error e => simp [Except.mapError, Except.map] at h
+  | ok a => exact ⟨a, rfl, by simpa [Except.mapError, Except.map] using h⟩
+
+theorem err_of_err {α β γ : Type} {x : Py.M α} {y : Except Err β} {f : α → γ} {g : β → γ}
+    (h : (x.mapError Py.Exc.toErr).map f = y.map g) {e : Py.Exc} (hx : x = .error e) : y = .error e.toErr := by
+  subst hx
+  cases y with
+  | error e' => simpa [Except.mapError, Except.map] using h.symm
+  | ok b => simp [Except.mapError, Except.map] at h
+
+theorem err_of_err' {α β γ : Type} {x : Py.M α} {y : Except Err β} {f : α → γ} {g : β → γ}
+    (h : (x.mapError Py.Exc.toErr).map f = y.map g) {e' : Err} (hy : y = .error e') :
+    ∃ e, x = .error e ∧ e.toErr = e' := by
+  subst hy
+  cases x with
+  | error e => exact ⟨e, rfl, by simpa [Except.mapError, Except.map] using h⟩
+  | ok a => simp [Except.mapError, Except.map] at h
+end Aux
 
 /-- cvss2.py, `__init__` after `check_mandatory()`, as translated from the source text: for every valid
     metric dict it raises nothing and leaves exactly the guide's three scores on the object (`None`
     exactly where the guide's score is undefined) -/
 theorem source_v2_scores_eq_spec (self : Code2.Self) (vector : Str) (hv : C03.ValidMap self.metrics) :
-    ∃ x, Code2.init_tail self vector = some x ∧
+    ∃ x, Code2.init_tail self vector = .ok x ∧
       x.metrics = self.metrics ∧
       x.base_score = some (Spec.V2.baseScore (assignment V2.ND self.metrics)) ∧
       x.temporal_score = Spec.V2.temporalScore (assignment V2.ND self.metrics) ∧
       x.environmental_score = Spec.V2.environmentalScore (assignment V2.ND self.metrics) := by
   have hs := C03.v2_scores_eq_spec self.metrics hv
-  have h := CodeTie2.init_tail_eq self vector
+  have h := init_tail_eq self vector
   rw [hs] at h
   cases hx : Code2.init_tail self vector with
-  | none => rw [hx] at h; simp at h
-  | some x =>
+  | error e => rw [hx] at h; simp [Except.toOption] at h
+  | ok x =>
     rw [hx] at h
-    simp only [Option.map_some, Option.some.injEq, Prod.mk.injEq] at h
+    simp only [Except.toOption, Option.map_some, Option.some.injEq, Prod.mk.injEq] at h
     obtain ⟨_, h2, h3, h4, h5⟩ := h
     exact ⟨x, rfl, h2, h3, h4, h5⟩
+
+/-- `CVSS2(s)` as translated from the source text succeeds exactly on the strings of the v2 grammar -/
+theorem source_v2_construct_accepts_iff (s : Str) : (∃ x, Code2.construct s = .ok x) ↔ Accepts g2 s := by
+  rw [← C04.v2_construct_accepts_iff]
+  constructor
+  · rintro ⟨x, hx⟩; obtain ⟨o, ho, -⟩ := Aux.ok_of_ok (construct_eq s) hx; exact ⟨o, ho⟩
+  · rintro ⟨o, ho⟩; obtain ⟨x, hx, -⟩ := Aux.ok_of_ok' (construct_eq s) ho; exact ⟨x, hx⟩
+
+/-- … and otherwise raises the malformed or the mandatory class: no exception escapes the hierarchy -/
+theorem source_v2_construct_outcomes (s : Str) :
+    (∃ x, Code2.construct s = .ok x) ∨
+      ∃ e, Code2.construct s = .error e ∧ (e.toErr = .malformed ∨ e.toErr = .mandatory) := by
+  cases hx : Code2.construct s with
+  | ok x => exact Or.inl ⟨x, rfl⟩
+  | error e =>
+    right
+    refine ⟨e, rfl, ?_⟩
+    have hy := Aux.err_of_err (construct_eq s) hx
+    have := C04.construct_outcomes .v2 s
+    simp only [construct] at this
+    rw [hy] at this
+    rcases this with ⟨o, ho⟩ | h | h
+    · simp [Except.map] at ho
+    · left; simpa [Except.map] using h
+    · right; simpa [Except.map] using h
+
+/-- the mandatory class is raised exactly for well-formed vectors lacking a mandatory metric -/
+theorem source_v2_construct_mandatory_iff (s : Str) :
+    (∃ e, Code2.construct s = .error e ∧ e.toErr = .mandatory) ↔ LacksMandatory g2 s := by
+  rw [← C04.v2_construct_mandatory_iff]
+  constructor
+  · rintro ⟨e, he, hm⟩; rw [Aux.err_of_err (construct_eq s) he, hm]
+  · intro h; exact Aux.err_of_err' (construct_eq s) h
+
+/-- the scores the translated constructor leaves on an accepted vector are the guide's -/
+theorem source_v2_construct_scores (s : Str) (x : Code2.Self) (hx : Code2.construct s = .ok x) :
+    ∃ o, V2.construct s = .ok o ∧ x.metrics = o.metrics ∧ x.base_score = some o.base ∧
+      x.temporal_score = o.temporal ∧ x.environmental_score = o.env := by
+  obtain ⟨o, ho, hv⟩ := Aux.ok_of_ok (construct_eq s) hx
+  simp only [Prod.mk.injEq] at hv
+  exact ⟨o, ho, hv.2.1, hv.2.2.1, hv.2.2.2.1, hv.2.2.2.2⟩
 
 end Cvss.Props.CodeTie2
